@@ -225,7 +225,8 @@ def gen_budget(rng, profile='migrate', year=2025):
     if rng.random() < 0.3:
         b['bystanders'][b['base'] + 'output/spending_summary.html'] = '<html>old report</html>\n'
     if rng.random() < 0.2:
-        b['bystanders'][b['base'] + 'config/settings-2024.yaml'] = 'year: 2024\ndata_sources: []\n'
+        # another settings file of the same budget: a stub, or last year's complete settings (same sources, same rules)
+        b['bystanders'][b['base'] + 'config/settings-2024.yaml'] = rng.choice(['year: 2024\ndata_sources: []\n', '@copy-of-settings'])
     if rng.random() < 0.15:
         b['bystanders']['README.md'] = '# my budget\n'
     return b
@@ -294,6 +295,8 @@ def render_budget(b, rng):
         b['views_file_setting'] = 'config/views.rules'
     files[base + 'config/settings.yaml'] = render_settings(b)
     for p, c in b['bystanders'].items():
+        if c == '@copy-of-settings':
+            c = files[base + 'config/settings.yaml'].replace('year: %d' % b['year'], 'year: 2024', 1)
         files[p] = c
     return files
 
